@@ -682,6 +682,10 @@ func indexGuarded(f *Func, g *Graph, n ast.Node, x, index ast.Expr) (bool, strin
 			}) {
 				return true, "dominated by the `" + base + " == 0` return"
 			}
+			// the same guard written as part of a wider condition (`i <= 0 || i > len(x)`): relational form
+			if g.HoldsAt(loc, Rel{base, token.GTR, "0"}) || g.HoldsAt(loc, Rel{base, token.GEQ, "1"}) || g.HoldsAt(loc, Rel{base, token.NEQ, "0"}) {
+				return true, "every path to the index has passed a test that excludes `" + base + " == 0`"
+			}
 			// an upper-bound test alone does not keep base-1 from being -1
 			return false, exprKey(n.(ast.Expr)) + " is not guarded against " + base + " == 0 (index -1)"
 		}
